@@ -75,7 +75,7 @@ pub fn decode_inst(t: &Tape, cfg: &GenCfg, prefix: &str) -> Inst {
     // ---- vehicle types
     let mut types = Vec::new();
     let trecs = t.sec(S_TYPES);
-    let ntypes = trecs.len().clamp(1, MAX_TYPES);
+    let ntypes = trecs.len().clamp(1, if cfg.cycle_rich { 2 } else { MAX_TYPES });
     for i in 0..ntypes {
         let r: &[u32] = trecs.get(i).map(|r| r.as_slice()).unwrap_or(&[]);
         let capacity = choose(f(r, 0), &[100u64, 10, 1, 7]);
@@ -254,7 +254,7 @@ pub fn decode_inst(t: &Tape, cfg: &GenCfg, prefix: &str) -> Inst {
     // ---- maintenance slots
     let srecs = t.sec(S_SLOTS);
     let mut slot_list = Vec::new();
-    let nslots = srecs.len().min(cfg.max_slots).max(if cfg.force_slots { 1 } else { 0 });
+    let nslots = srecs.len().min(cfg.max_slots).max(if cfg.cycle_rich { 2 } else if cfg.force_slots { 1 } else { 0 });
     for i in 0..nslots {
         let r: &[u32] = srecs.get(i).map(|r| r.as_slice()).unwrap_or(&[]);
         let loc = pick(f(r, 0), nlocs);
